@@ -37,8 +37,17 @@ def _check_key(key, depth, rng):
     exp = [ref_fnv(units, (FNV64_BASIS + 31 * i), FNV64_PRIME, 64) for i in range(depth)]
     if all(u < 256 for u in units) and H.default_fnv_1a(key, depth) != exp:
         probs.append("default_fnv_1a differs from published 64-bit FNV-1a with basis advanced by 31 per index")
+    # all seeds: the result is an unsigned 64/32-bit value and depends on the seed only through the offset
+    # basis advanced by 31*seed modulo 2^64 / 2^32
+    for seed in (0, 5, 2**60, 2**64 // 31 + 1, 2**64 + 3, -1, -(2**40), rng.randint(0, 2**70)):
+        for fn, bits in ((H.fnv_1a, 64), (H.fnv_1a_32, 32)):
+            v = fn(key, seed)
+            if not (0 <= v < 2**bits):
+                probs.append(f"{fn.__name__}(key, seed={seed}) = {v} is outside the unsigned {bits}-bit range")
+            elif v != fn(key, seed % 2**bits + (2**bits if seed % 7 == 0 else 0)) and 31 % 2 == 1:
+                probs.append(f"{fn.__name__} depends on the seed beyond its value modulo 2^{bits}")
     if all(u < 256 for u in units):
-        for seed in (0, 1, rng.randint(0, 1000)):
+        for seed in (0, 1, rng.randint(0, 1000), 2**64 // 31 + 2, 2**64 + 7):
             if H.fnv_1a_32(key, seed) != ref_fnv(units, FNV32_BASIS + 31 * seed, FNV32_PRIME, 32):
                 probs.append("fnv_1a_32 differs from published 32-bit FNV-1a")
             if H.fnv_1a(key, seed) != ref_fnv(units, FNV64_BASIS + 31 * seed, FNV64_PRIME, 64):
